@@ -5,7 +5,7 @@ set -u
 patch=$1; prop=$2; shift 2
 wt=/tmp/try_$$
 git -C /repo worktree add --detach $wt HEAD -q || exit 2
-git -C $wt apply "$patch" || { git -C /repo worktree remove --force $wt; exit 2; }
+git -C $wt apply "$patch" 2>/dev/null || git -C $wt apply -3 "$patch" || { git -C /repo worktree remove --force $wt; exit 2; }
 VERIF_REPLAY_DIR=/tmp/replays_try /verif/check $prop --src $wt/src "$@"
 rc=$?
 git -C /repo worktree remove --force $wt
